@@ -319,6 +319,32 @@ class World:
         return {p: self._conf_name(self.lb.lookup(self.pkg[p] + ".m")) for p in ("pa", "pb")}
 
 
+class SelfDeadlock(Exception):
+    pass
+
+
+def guarded(fn, what):
+    """Run fn() in ONE scheduled thread: a self-deadlock on a cooperative lock (or an endless wait) is detected
+    by the scheduler instead of hanging the harness.  Must not be called from inside a run."""
+    box = {}
+
+    def body(ts):
+        box["v"] = fn()
+
+    run = sched.Run([body], sched.NonPreemptive(), granularity="visible", log_locks=False).go()
+    if not run.clean:
+        raise SelfDeadlock(what, run.deadlock or run.aborted)
+    if run.threads[0].exc is not None:
+        raise run.threads[0].exc
+    return box.get("v")
+
+
+def _alarm(seconds=900):
+    """Backstop: a child that hangs nevertheless is killed (the parent then reports a machinery failure)."""
+    import signal
+    signal.alarm(seconds)
+
+
 def canon_key(name):
     k, a, _ = OPDEF[name]
     return SAN.get(a, a) if k == "Conf" else a
@@ -356,7 +382,12 @@ def project(mix, results):
 def execute(mix, policy, granularity="line", warm_hook=True, keep_events=True, max_steps=400_000):
     """Run the programs of ``mix`` (one per thread) under ``policy``; return the observation."""
     lb = lab()
-    world = World(lb, warm_hook)
+    try:
+        world = guarded(lambda: World(lb, warm_hook), "setup of the hints, configurations and package names")
+    except SelfDeadlock as ex:
+        dl = ex.args[1] if isinstance(ex.args[1], dict) else {"blocked": {1: None}, "owners": {}, "step": 0}
+        return {"mix": [list(p) for p in mix], "steps": 0, "nswitch": 0, "deadlock": dict(dl, during=ex.args[0]), "aborted": None,
+                "clean": False, "results": [], "warn_changed": [], "lock_order": [], "events": [], "switches": []}, None
     snap = lb.warn_snapshot()
 
     def mk(t, progr):
@@ -384,11 +415,16 @@ def execute(mix, policy, granularity="line", warm_hook=True, keep_events=True, m
     if obs["warn_changed"]:
         lb.warn_restore(snap)
     if run.clean:
-        for fn in world.post:
-            fn()
+        try:
+            guarded(lambda: [fn() for fn in world.post] and None, "use of the operations' results")
+            obs["registry"] = guarded(world.final_registry, "final lookups")
+        except SelfDeadlock as ex:
+            obs["deadlock"] = dict(ex.args[1] if isinstance(ex.args[1], dict) else {"blocked": {1: None}, "owners": {}},
+                                   during=ex.args[0])
+            obs["clean"] = False
+    if obs["clean"]:
         obs["results"] = [[list(r) for r in ts.results] for ts in run.threads]
         obs["thread_exc"] = [repr(ts.exc)[:200] if ts.exc is not None else None for ts in run.threads]
-        obs["registry"] = world.final_registry()
         obs["proj"], obs["dup"] = project(mix, obs["results"])
     else:
         obs["results"] = [[list(r) for r in ts.results] for ts in run.threads]
@@ -470,14 +506,17 @@ def model_project(case):
 
 def warm_up(lb: Lab):
     """A process that has decorated and checked before: every pool holds released items."""
-    w = World(lb, warm_hook=False)
-    w.perform("Dec_LA_D", 1)
-    w.perform("Bear_LB", 1)
-    for fn in w.post:
-        fn()
+    def go():
+        w = World(lb, warm_hook=False)
+        w.perform("Dec_LA_D", 1)
+        w.perform("Bear_LB", 1)
+        for fn in w.post:
+            fn()
+    guarded(go, "warm-up")
 
 
 def replay_case(case):
+    _alarm()
     """Child side: replay one model schedule at the model's granularity."""
     lb = lab()
     if case.get("warm_pool"):
@@ -594,6 +633,7 @@ def mkpolicy(spec, nthreads):
 
 
 def plan_child(job):
+    _alarm()
     """Base runs of one mix (one per first thread): the preemption points (and the verdict on the base runs)."""
     lb = lab()
     mix = [tuple(p) for p in job["mix"]]
@@ -616,6 +656,7 @@ def plan_child(job):
 
 
 def explore_child(job):
+    _alarm()
     """Run the cases of one chunk (same mix) in this process; judge each; return a compact summary."""
     lb = lab()
     mix = [tuple(p) for p in job["mix"]]
@@ -678,6 +719,7 @@ def _plain(spec):
 
 
 def single_child(job):
+    _alarm()
     """One case in a pristine fork (confirmation of a violation / --replay)."""
     lb = lab()
     mix = [tuple(p) for p in job["mix"]]
@@ -700,21 +742,30 @@ def single_child(job):
 
 def seq_child(job):
     """The operations of a mix one after the other in the given order (no threads): the sequential reference."""
+    _alarm()
     lb = lab()
     mix = [tuple(p) for p in job["mix"]]
-    world = World(lb)
-    pos = [0] * len(mix)
-    results = [[] for _ in mix]
     snap = lb.warn_snapshot()
-    for t in job["order"]:
-        name = mix[t][pos[t]]
-        pos[t] += 1
-        results[t].append(world.perform(name, t + 1))
-    for fn in world.post:
-        fn()
+
+    def go():
+        world = World(lb)
+        pos = [0] * len(mix)
+        results = [[] for _ in mix]
+        for t in job["order"]:
+            name = mix[t][pos[t]]
+            pos[t] += 1
+            results[t].append(world.perform(name, t + 1))
+        for fn in world.post:
+            fn()
+        return results, world.final_registry()
+
+    try:
+        results, registry = guarded(go, "sequential reference")
+    except SelfDeadlock as ex:
+        return {"outcome": "deadlock", "dup": [], "warn_changed": [], "deadlock": repr(ex.args[1])}
     proj, dup = project(mix, results)
     after = lb.warn_snapshot()
-    return {"outcome": canon_outcome(proj, world.final_registry()), "dup": dup,
+    return {"outcome": canon_outcome(proj, registry), "dup": dup,
             "warn_changed": [i for i in range(3) if snap[i] is not after[i]]}
 
 
